@@ -787,7 +787,9 @@ where
             }
         };
 
-        let level = suppvar_level_map[vid as usize];
+        let Some(&level) = suppvar_level_map.get(vid) else {
+            return err("variable ID out of range");
+        };
         if level >= t_level || level >= e_level {
             return err("node level must be less than the children's levels");
         }
